@@ -1544,6 +1544,14 @@ def run_deferred_case(case):
                             f'{a["value"]!r}', **dict(feat, prop=p))
                     hits['last_notification_checked'] += 1
         n_calls += 1 + len(calls) + len(stored)
+    # leave nothing behind for the next case of this worker process (state
+    # that desper keeps outside the instances would otherwise make a verdict
+    # depend on which cases ran before: not replayable)
+    for t in ts:
+        try:
+            t.clear()
+        except Exception:
+            pass
     return {'calls': n_calls, 'hits': dict(hits), 'key': repr(case)}
 
 
